@@ -1252,7 +1252,10 @@ where
                     continue;
                 }
                 let good: Vec<_> = p.mon.desync_events.iter().filter(|e| e.0 >= f0).collect();
-                if good.is_empty() {
+                // "within a few reporting intervals": only expected once both games are well past the divergence
+                let reach = peers.iter().filter(|q| matches!(q.sess, Sess::P2P(_))).map(|q| q.mon.game.frame).min().unwrap_or(0);
+                let due = reach >= f0 + 4 * cfg.desync as i32 + 2 * cfg.window as i32 + 12;
+                if good.is_empty() && due {
                     out.hit("C09", "divergence-missed", scen, &format!("peer {}: games diverge from frame {f0} on but no DesyncDetected for a frame >= {f0} arrived (events: {:?})", p.id, p.mon.desync_events));
                 } else {
                     for e in &good {
